@@ -14,6 +14,8 @@ This module
 Exchange format (all little-endian, files live in the driver's workdir):
   cases:  "C06CASE1" u32 ncases, then per case: u32 reclen, u32 id, u8 kind(0 load,1 save), u8 flags,
           u16+family, u16+name, u32 w, u32 h, u8 alpha, u8 cw, u32+pixels [, u32+file bytes]
+          kind 2 (encoded-size ladder, PNG): pixels = random base raster, then u8 mode, u8 fill, u16 window,
+          u32 ntargets, u32 targets[]  (see run_ladder_case in harness/c06.cc and ladder_pixels below)
   obs:    sequence of u32 reclen + (u8 type, u32 case id, ...) — see R_* in harness/c06.cc
 """
 import itertools
@@ -30,8 +32,8 @@ from .. import build, driver
 F_PREFIX, F_MEM, F_FILE, F_PIPE, F_PIPEPRE, F_HISTORY = 1, 2, 4, 8, 16, 32
 KINDS = ("mem", "file", "pipe", "fopen", "path", "pathstr")  # delivery channels, see StreamKind in harness/c06.cc
 SLOT_NAMES = {0: "input", 1: "ppm", 2: "bmp", 3: "png"}
-R_BEGIN, R_LOAD, R_PSUM, R_PDIFF, R_SAVE, R_RT, R_END, R_DONE, R_LEAK, R_ROUTE, R_RSAVE, R_RLOAD = range(12)
-MAXPREFIX = 4096
+R_BEGIN, R_LOAD, R_PSUM, R_PDIFF, R_SAVE, R_RT, R_END, R_DONE, R_LEAK, R_ROUTE, R_RSAVE, R_RLOAD, R_LADDER = range(13)
+MAXPREFIX = 4096 + 128  # every file up to 4 KiB, and the size-ladder files just above the 4096 boundary
 TIMEOUT = {"quick": 1500, "thorough": 6 * 3600}  # watchdog per executor process (hang detector, not a budget)
 
 
@@ -149,6 +151,119 @@ P7_STYLES = 2 * len(_P7_ORDERS)
 
 BMP_HEADER_SIZES = (40, 52, 56, 108, 124)
 PERMS = list(itertools.permutations(range(4)))  # byte positions of (r, g, b, a) inside the 32-bit pixel
+
+
+# --------------------------------------------------------------------------------------------------
+# encoded-size ladder.  Sizes that only emerge after encoding (deflated size of a PNG's IDAT payload, total
+# length of a PPM/BMP file = header text + raster + padding) are steered onto every power of two and 3*2^k
+# (and the multiples of 1 KiB for the PNG payload), hit exactly and one byte to either side where reachable:
+# internal block / chunk / stdio buffer sizes of a writer or loader are of that form.
+
+def size_boundaries(lo, hi):
+    """2^k and 3*2^k within [lo, hi]"""
+    out = set()
+    k = 1
+    while k <= hi:
+        out.update(v for v in (k, 3 * k) if lo <= v <= hi)
+        k *= 2
+    return sorted(out)
+
+
+PNG_IDAT_MAX = 64 * (1 + 64 * 4) + 16  # 64x64 RGBA, incompressible: stored blocks + zlib wrapper
+PNG_LADDER_POW = size_boundaries(256, PNG_IDAT_MAX)        # required: hit exactly
+PNG_LADDER_KIB = [1024 * k for k in range(1, 17)]
+PNG_LADDER_TARGETS = sorted(set(PNG_LADDER_POW) | set(PNG_LADDER_KIB))
+FILE_BOUNDARIES = size_boundaries(256, 1 << 18)
+
+
+def near_boundary(n, boundaries):
+    """-> (B, '-1' | '=' | '+1') if n is within one byte of a boundary, else None"""
+    for d, rel in ((0, "="), (1, "-1"), (-1, "+1")):
+        if n + d in boundaries:
+            return n + d, rel
+    return None
+
+
+def ladder_pixels(base, mode, fill, L):
+    """raster of a ladder probe - mirrors ladder_pixels() in harness/c06.cc"""
+    n = len(base)
+    out = bytearray([fill]) * n
+    if mode == 0:
+        out[:L] = base[:L]
+    elif mode == 1:
+        out[n - L:] = base[n - L:]
+    else:
+        m = min(n, 2 * L)
+        out[0:m:2] = base[0:m:2]
+    return bytes(out)
+
+
+def png_idat_chunks(b):
+    """lengths of the IDAT chunks of a PNG file (tolerant walk, coverage only); None if the framing is broken"""
+    pos, out = 8, []
+    while pos + 12 <= len(b):
+        (n,) = struct.unpack(">I", b[pos:pos + 4])
+        if pos + 12 + n > len(b):
+            return None
+        if b[pos + 4:pos + 8] == b"IDAT":
+            out.append(n)
+        if b[pos + 4:pos + 8] == b"IEND":
+            return out
+        pos += 12 + n
+    return None
+
+
+def pick_by_size(index, sizes_sorted, B, rels, rng):
+    """index: encoded size -> list of parameter tuples.  Returns [(rel, size, params)] for the wanted relations to the
+    boundary B ('=', '-1', '+1'); where none of the three sizes is reachable, the nearest size below and above."""
+    import bisect
+    out = []
+    for rel in rels:
+        sz = B + {"=": 0, "-1": -1, "+1": 1}[rel]
+        if sz in index:
+            out.append((rel, sz, rng.choice(index[sz])))
+    if not out and not any(B + d in index for d in (-1, 0, 1)):
+        i = bisect.bisect_left(sizes_sorted, B)
+        if i > 0:
+            out.append(("<", sizes_sorted[i - 1], rng.choice(index[sizes_sorted[i - 1]])))
+        if i < len(sizes_sorted):
+            out.append((">", sizes_sorted[i], rng.choice(index[sizes_sorted[i]])))
+    return out
+
+
+def rels_for(quick, rot):
+    """quick: one relation per boundary, rotating (falls back to the others if that size is unreachable)"""
+    order = ("=", "-1", "+1")
+    if not quick:
+        return [order]
+    k = next(rot) % 3
+    return [(order[k],), (order[(k + 1) % 3],), (order[(k + 2) % 3],)]
+
+
+def pick_rotating(index, sizes_sorted, B, quick, rot, rng):
+    for rels in rels_for(quick, rot):
+        got = pick_by_size(index, sizes_sorted, B, rels, rng)
+        if got and got[0][0] in ("=", "-1", "+1"):
+            return got
+    return pick_by_size(index, sizes_sorted, B, (), rng)
+
+
+def bmp_stride(w, bpp):
+    return ((w * bpp + 31) // 32) * 4
+
+
+def predicted_saved_len(fmtn, w, h, alpha, cw):
+    """length of the file phosg is expected to write (steering only: the judge notes the sizes really seen)"""
+    nch = 4 if alpha else 3
+    if fmtn == "png-raster":  # what the PNG writer hands to deflate: filter byte + row, h times
+        return h * (1 + w * nch)
+    if fmtn == "bmp":
+        return (138 + 4 * w * h) if alpha else (54 + bmp_stride(w, 24) * h)
+    if alpha:
+        hdr = "P7\nWIDTH %d\nHEIGHT %d\nDEPTH 4\nMAXVAL %d\nTUPLTYPE RGB_ALPHA\nENDHDR\n" % (w, h, CW_MAX[cw])
+    else:
+        hdr = "P6 %d %d %d\n" % (w, h, CW_MAX[cw])
+    return len(hdr) + w * h * nch * (cw // 8)
 
 
 def write_bmp(rng, im, bpp, bitfields, header_size, topdown, gap, perm=(2, 1, 0, 3)):
@@ -294,6 +409,64 @@ def decode_png(b):
     return Im(w, h, ctype == 6, 8, bytes(out))
 
 
+def _png_chunk(typ, data):
+    return struct.pack(">I", len(data)) + typ + data + struct.pack(">I", zlib.crc32(typ + data) & 0xFFFFFFFF)
+
+
+def selftest_png_decoder(seed):
+    """The PNG oracle must accept every standard-conformant chunking of the same stream (several consecutive IDAT
+    chunks of any length including zero, ancillary chunks) and must judge CRCs, chunk order and the total inflated
+    length.  Files are built here, independently of phosg.  Returns the number of checks; raises AssertionError."""
+    rng = random.Random(seed * 31 + 3)
+    n = 0
+    for (w, h, alpha) in ((5, 4, True), (7, 3, False), (64, 64, True)):
+        bpp = 4 if alpha else 3
+        px = rng.randbytes(w * h * bpp)
+        raw = b"".join(b"\0" + px[y * w * bpp:(y + 1) * w * bpp] for y in range(h))
+        z = zlib.compress(raw, 9)
+        ihdr = _png_chunk(b"IHDR", struct.pack(">IIBBBBB", w, h, 8, 6 if alpha else 2, 0, 0, 0))
+        gama = _png_chunk(b"gAMA", struct.pack(">I", 45455))
+        text = _png_chunk(b"tEXt", b"Comment\0x")
+        iend = _png_chunk(b"IEND", b"")
+        sig = b"\x89PNG\r\n\x1a\n"
+        cuts = sorted(rng.randrange(len(z) + 1) for _ in range(4))
+        parts = [z[a:b] for a, b in zip([0] + cuts, cuts + [len(z)])]
+        splits = [[z], [b""] + parts + [b""], [z[:1], b"", z[1:]], [z[i:i + 8] for i in range(0, len(z), 8)], [z, b""]]
+        for sp in splits:
+            f = sig + ihdr + gama + text + b"".join(_png_chunk(b"IDAT", d) for d in sp) + iend
+            got = decode_png(f)
+            assert (got.w, got.h, got.alpha, got.data) == (w, h, alpha, px), "valid PNG with %d IDAT chunks misread" % len(sp)
+            n += 1
+        idat = [_png_chunk(b"IDAT", d) for d in parts]
+        bad_crc = bytearray(idat[1] if len(parts[1]) else idat[0])
+        bad_crc[-1] ^= 1
+        raw_short = raw[:-(1 + w * bpp)] if h > 1 else raw[:-1]
+        broken = [
+            ("crc", sig + ihdr + gama + idat[0] + bytes(bad_crc) + b"".join(idat[2:]) + iend),
+            ("chunk-layout", sig + ihdr + gama + idat[0] + text + b"".join(idat[1:]) + iend),
+            ("chunk-layout", sig + ihdr + gama + b"".join(idat)),
+            ("chunk-layout", sig + ihdr + gama + b"".join(idat) + iend + b"\0"),
+            ("chunk-layout", sig + ihdr + idat[0] + gama + b"".join(idat[1:]) + iend),
+            ("chunk-layout", sig + ihdr + gama + iend),
+            ("ihdr", sig + gama + ihdr + b"".join(idat) + iend),
+            ("zlib", sig + ihdr + gama + _png_chunk(b"IDAT", z[:-5]) + _png_chunk(b"IDAT", b"") + iend),
+            ("zlib", sig + ihdr + gama + _png_chunk(b"IDAT", b"") + iend),
+            ("zlib", sig + ihdr + gama + _png_chunk(b"IDAT", z) + _png_chunk(b"IDAT", b"\0") + iend),
+            ("raster-length", sig + ihdr + gama + _png_chunk(b"IDAT", zlib.compress(raw_short, 9)) + iend),
+            ("raster-length", sig + ihdr + gama + _png_chunk(b"IDAT", zlib.compress(raw + b"\0", 9)) + iend),
+            ("signature", b"\x89PNG\r\n\x1a\r" + ihdr + gama + b"".join(idat) + iend),
+        ]
+        for cls, f in broken:
+            try:
+                decode_png(f)
+            except DecodeError as ex:
+                assert ex.cls == cls, "broken PNG judged as %r, expected %r (%s)" % (ex.cls, cls, ex)
+            else:
+                raise AssertionError("broken PNG (%s) accepted" % cls)
+            n += 1
+    return n
+
+
 def _mask_shift(m):
     if m == 0:
         raise DecodeError("masks", "zero channel mask")
@@ -434,7 +607,7 @@ def decode_ppm(b):
 # workload
 
 class Case:
-    __slots__ = ("id", "kind", "flags", "fam", "name", "want", "file", "value_oracle", "group")
+    __slots__ = ("id", "kind", "flags", "fam", "name", "want", "file", "value_oracle", "group", "ladder")
 
 
 def all_dims(quick):
@@ -476,6 +649,7 @@ def generate(tier, seed):
         c.flags = (F_PREFIX if prefixes else 0) | F_MEM | F_PIPE | ((F_FILE | F_PIPEPRE) if both_streams else 0) | \
                   (F_HISTORY if history else 0)
         c.value_oracle = value_oracle
+        c.ladder = None
         cases.append(c)
         return c
 
@@ -496,6 +670,24 @@ def generate(tier, seed):
         ("p7-graya", "GRAYSCALE_ALPHA", True, True, (8, 16), (32, 64)),
     ]
     ppm_rot = itertools.count(seed)  # own counter: `rot` advances twice per case, which would pin the parity
+    size_rot = itertools.count(seed)  # rotates the relation (=, -1, +1) of size-ladder files to their boundary
+
+    def ppm_file(tag, w, h, nch, maxval, samples, style):
+        if tag in ("P5", "P6"):
+            return write_pnm(tag, w, h, maxval, samples, style)
+        return write_p7(w, h, nch, maxval, tag, samples, style)
+
+    def ppm_case(fam, tag, gray, alpha, cw, ext, w, h, content, maxval, style, both, note=""):
+        nch = (1 if gray else 3) + (1 if alpha else 0)
+        samples = gen_samples(rng, content, w * h * nch, cw, maxval, w, nch)
+        data = expand_gray(samples, w, h, alpha, cw) if gray else samples
+        want = Im(w, h, alpha, cw, data)
+        f = ppm_file(tag, w, h, nch, maxval, samples, style)
+        famx = "%s-cw%d" % (fam, cw)
+        add(0, famx, fam + ("-ext" if ext else ""),
+            "%s %dx%d maxval=%d content=%s hdrstyle=%d len=%d%s" % (famx, w, h, maxval, content, style, len(f), note),
+            want, f, value_oracle=not ext, both_streams=both)
+
     for fam, tag, gray, alpha, cws, ext_cws in ppm_fams:
         for cw in cws + ext_cws:
             ext = cw in ext_cws
@@ -509,20 +701,29 @@ def generate(tier, seed):
                         mv = BOUNDARY_MAXVALS[(k // 9) % 4]
                         if (mv < 256) == (cw == 8):
                             maxval = mv
-                    nch = (1 if gray else 3) + (1 if alpha else 0)
-                    samples = gen_samples(rng, content, w * h * nch, cw, maxval, w, nch)
-                    data = expand_gray(samples, w, h, alpha, cw) if gray else samples
-                    want = Im(w, h, alpha, cw, data)
-                    if tag in ("P5", "P6"):
-                        style = k % PNM_STYLES
-                        f = write_pnm(tag, w, h, maxval, samples, style)
-                    else:
-                        style = k % P7_STYLES
-                        f = write_p7(w, h, nch, maxval, tag, samples, style)
-                    famx = "%s-cw%d" % (fam, cw)
-                    add(0, famx, fam + ("-ext" if ext else ""),
-                        "%s %dx%d maxval=%d content=%s hdrstyle=%d len=%d" % (famx, w, h, maxval, content, style, len(f)),
-                        want, f, value_oracle=not ext, both_streams=(next(ppm_rot) % 8 == 0))
+                    style = k % (PNM_STYLES if tag in ("P5", "P6") else P7_STYLES)
+                    ppm_case(fam, tag, gray, alpha, cw, ext, w, h, content, maxval, style, next(ppm_rot) % 8 == 0)
+            # size ladder: total file length (header text + raster) on every 2^k / 3*2^k, exactly and +-1 where some
+            # (w, h, header style) reaches it - stdio buffers and block-wise readers work in such units
+            if ext and quick:
+                continue
+            nch = (1 if gray else 3) + (1 if alpha else 0)
+            nstyles = PNM_STYLES if tag in ("P5", "P6") else P7_STYLES
+            hdr_len = {}
+            index = {}
+            for w in range(1, 65):
+                for h in range(1, 65):
+                    for style in range(nstyles):
+                        hk = (len(str(w)), len(str(h)), style)
+                        if hk not in hdr_len:
+                            hdr_len[hk] = len(ppm_file(tag, w, h, nch, CW_MAX[cw], b"", style))
+                        index.setdefault(hdr_len[hk] + w * h * nch * (cw // 8), []).append((w, h, style))
+            sizes_sorted = sorted(index)
+            for B in size_boundaries(256, sizes_sorted[-1] + 1):
+                for rel, sz, (w, h, style) in pick_rotating(index, sizes_sorted, B, quick, size_rot, rng):
+                    content = CONTENTS[next(rot) % len(CONTENTS)]
+                    ppm_case(fam, tag, gray, alpha, cw, ext, w, h, content, CW_MAX[cw], style, next(ppm_rot) % 8 == 0,
+                             note=" size-ladder=%d%s" % (B, rel))
 
     # ---- BMP family inputs ------------------------------------------------------------------
     bmp_variants = []  # (fam, bpp, bitfields, header_size, topdown, gap, perm)
@@ -573,6 +774,34 @@ def generate(tier, seed):
                 add(0, fam, fam, "%s %dx%d hdr=%d %s gap=16%s content=random len=%d" % (
                     fam, w, h, hs, "top-down" if td else "bottom-up",
                     (" masks(rgba byte)=%s" % (perm,)) if bitf else "", len(f)), want, f, both_streams=True)
+        # size ladder: total file length on every 2^k / 3*2^k, exactly and +-1 (the gap before the pixel data is free,
+        # so every length is reachable: dimensions pick the raster, the gap the remainder)
+        for B in size_boundaries(256, 14 + 124 + 48 + 4 * 64 * 64):
+            for rels in rels_for(quick, size_rot):
+                for rel in rels[:1] if quick else rels:
+                    sz = B + {"=": 0, "-1": -1, "+1": 1}[rel]
+                    _, _, _, hs, td, _, perm = variants[vi % len(variants)]
+                    vi += 1
+                    cands = [(w, h) for w in range(1, 65) for h in range(1, 65)
+                             if 0 <= sz - (14 + hs + bmp_stride(w, bpp) * h) <= 48] or \
+                            [(w, h) for w in range(1, 65) for h in range(60, 65)
+                             if 0 <= sz - (14 + hs + bmp_stride(w, bpp) * h) <= 400]
+                    if not cands:
+                        continue
+                    w, h = rng.choice(cands)
+                    gap = sz - (14 + hs + bmp_stride(w, bpp) * h)
+                    content = CONTENTS[next(rot) % len(CONTENTS)]
+                    nch = 4 if bitf else 3
+                    data = gen_samples(rng, content, w * h * nch, 8, 255, w, nch)
+                    want = Im(w, h, bitf, 8, data)
+                    f = write_bmp(rng, want, bpp, bitf, hs, td, gap, perm or (2, 1, 0, 3))
+                    if len(f) != sz:
+                        raise AssertionError("bmp size ladder: built %d bytes, wanted %d" % (len(f), sz))
+                    add(0, fam, fam, "%s %dx%d hdr=%d %s gap=%d%s content=%s len=%d size-ladder=%d%s" % (
+                        fam, w, h, hs, "top-down" if td else "bottom-up", gap,
+                        (" masks(rgba byte)=%s" % (perm,)) if bitf else "", content, len(f), B, rel), want, f, both_streams=True)
+                if quick:
+                    break
 
     # ---- save cases -------------------------------------------------------------------------
     save_rot = itertools.count(seed)
@@ -589,6 +818,48 @@ def generate(tier, seed):
                     r4 = next(save_rot) % 4
                     add(1, fam, "save", "%s %dx%d content=%s" % (fam, w, h, content), want,
                         both_streams=(r4 == 0), history=(w * h <= 64 and ci == 0) or r4 == 1)
+
+    # ---- size ladder for the PPM / BMP writers ----------------------------------------------
+    # dimensions chosen so that the length of the file the writer produces (predicted here, noted by the judge from
+    # the bytes really written) lands on every 2^k / 3*2^k, exactly and +-1 where some (w, h) reaches it
+    for cw in (8, 16, 32, 64):
+        for alpha in (False, True):
+            for fmtn in (("ppm", "bmp", "png-raster") if cw == 8 else ("ppm",)):
+                index = {}
+                for w in range(1, 65):
+                    for h in range(1, 65):
+                        index.setdefault(predicted_saved_len(fmtn, w, h, alpha, cw), []).append((w, h))
+                sizes_sorted = sorted(index)
+                for B in size_boundaries(256, sizes_sorted[-1] + 1):
+                    for rel, sz, (w, h) in pick_rotating(index, sizes_sorted, B, quick, size_rot, rng):
+                        content = CONTENTS[next(rot) % len(CONTENTS)]
+                        nch = 4 if alpha else 3
+                        data = gen_samples(rng, content, w * h * nch, cw, CW_MAX[cw], w, nch)
+                        fam = "save-cw%d%s" % (cw, "a" if alpha else "")
+                        add(1, fam, "save", "%s %dx%d content=%s size-ladder(%s)=%d%s" % (fam, w, h, content, fmtn, B, rel),
+                            Im(w, h, alpha, cw, data), both_streams=(next(save_rot) % 4 == 0))
+
+    # ---- encoded-size ladder for the PNG writer ---------------------------------------------
+    # (w, h, alpha, mode): the executor steers the number of incompressible bytes L by measuring the real writer's
+    # output until the IDAT payload hits every target size, and dumps every file it produced on the way
+    lad = [(64, 64, True, 0), (64, 64, True, 1), (64, 64, False, 0), (64, 64, False, 2),
+           (rng.randrange(40, 64), rng.randrange(40, 65), True, 2), (rng.randrange(40, 65), rng.randrange(40, 64), False, 1),
+           (rng.randrange(12, 31), rng.randrange(12, 31), True, 0), (rng.randrange(12, 31), rng.randrange(12, 31), False, 1)]
+    if not quick:
+        for i in range(24):
+            big = i % 3 != 2
+            lad.append((rng.randrange(48, 65) if big else rng.randrange(8, 48), 64 if i % 6 == 0 else rng.randrange(33, 65),
+                        i % 2 == 0, (i // 2) % 3))
+    for vi, (w, h, alpha, mode) in enumerate(lad):
+        nch = 4 if alpha else 3
+        fill = (0x00, 0xFF)[vi] if vi < 2 else rng.randrange(256)
+        base = rng.randbytes(w * h * nch)
+        c = add(2, "ladder-png-cw8%s" % ("a" if alpha else ""), "ladder",
+                "png-ladder %dx%d alpha=%d mode=%s fill=0x%02x" % (w, h, alpha, ("random-prefix", "random-suffix",
+                                                                                  "alternating-prefix")[mode], fill),
+                Im(w, h, alpha, 8, base))
+        # IDAT payload onto every target; the total file length (bit 31) onto every 2^k / 3*2^k
+        c.ladder = (mode, fill, 8 if quick else 16, list(PNG_LADDER_TARGETS) + [0x80000000 | b for b in PNG_LADDER_POW])
     return cases
 
 
@@ -602,6 +873,9 @@ def write_case_file(path, cases):
             rec += struct.pack("<IIBBI", c.want.w, c.want.h, int(c.want.alpha), c.want.cw, len(c.want.data)) + c.want.data
             if c.kind == 0:
                 rec += struct.pack("<I", len(c.file)) + c.file
+            elif c.kind == 2:
+                mode, fill, window, targets = c.ladder
+                rec += struct.pack("<BBHI", mode, fill, window, len(targets)) + struct.pack("<%dI" % len(targets), *targets)
             f.write(struct.pack("<I", len(rec)) + rec)
 
 
@@ -662,6 +936,8 @@ def first_diff(want, got):
         return "header fields: expected %s, got %s" % (want.desc(), got.desc())
     if len(want.data) != len(got.data):
         return "data length: expected %d, got %d" % (len(want.data), len(got.data))
+    if want.data == got.data:
+        return "identical"
     b = want.cw // 8
     nch = 4 if want.alpha else 3
     for i in range(0, len(want.data), b):
@@ -865,6 +1141,60 @@ def judge_route(res, t, c, rd, routes, direct_saves):
                                                           else "pixels"), "save -> load does not reproduce the image: " + d, where)
 
 
+def note_png_size(res, data, targets=PNG_LADDER_TARGETS):
+    """coverage: which boundary sizes the IDAT payload of a PNG written by the real writer actually hit"""
+    chunks = png_idat_chunks(data)
+    if chunks is None:
+        res.count("png-idat:framing-unreadable")
+        return None
+    total = sum(chunks)
+    res.count("png-idat-chunks-per-file:%s" % (len(chunks) if len(chunks) < 4 else "4+"))
+    hit = near_boundary(total, targets)
+    if hit:
+        res.cls("png-idat-size:%d:%s" % hit)
+    hit = near_boundary(len(data), PNG_LADDER_POW)
+    if hit:
+        res.cls("png-file-size:%d" % hit[0])
+        res.count("png-file-size-hit:%d:%s" % hit)
+    return total
+
+
+def note_file_size(res, kind, fam, n):
+    """coverage: total file lengths within one byte of 2^k / 3*2^k (class per boundary, relation as a counter)"""
+    hit = near_boundary(n, FILE_BOUNDARIES)
+    if hit:
+        res.cls("file-size:%s:%d" % (kind, hit[0]))
+        res.count("file-size-hit:%s:%d:%s" % (fam, hit[0], hit[1]))
+
+
+def judge_ladder(res, c, rd):
+    """one probe of the PNG encoded-size ladder: the raster is rebuilt here from the recipe, the file is decoded by
+    the independent decoder like any other saved PNG"""
+    mode, fill, window, targets = c.ladder
+    L, target, phase, status = rd.u(4), rd.u(4), rd.u(1), rd.u(1)
+    if status:
+        et, ew = rd.blob().decode(errors="replace"), rd.blob().decode(errors="replace")
+        data = None
+    else:
+        data = rd.blob()
+    via_stream, measured = rd.u(1), rd.u(4)
+    res.evaluations += 1
+    res.count("png-ladder-probes:%s" % ("endpoints", "bisection", "window")[phase])
+    name = "%s L=%d (steering towards %s %d)" % (c.name, L, "file length" if target >> 31 else "IDAT payload", target & 0x7FFFFFFF)
+    if via_stream:
+        res.violation("save:png:writer-differs", "save(FILE*) %s" % ("produced different bytes than save()" if via_stream == 1
+                      else "and save() disagree on whether the image can be saved"), name)
+    if status:
+        res.violation("save:png:threw", "save threw %s: %s" % (et, ew), name)
+        return
+    want = Im(c.want.w, c.want.h, c.want.alpha, 8, ladder_pixels(c.want.data, mode, fill, L))
+    total = note_png_size(res, data)
+    if total is not None:
+        name += " IDAT payload %d bytes in %d chunk(s)" % (total, len(png_idat_chunks(data)))
+    res.cls("save:png:ladder:%s:mode%d" % ("cw8a" if c.want.alpha else "cw8", mode))
+    judge_saved(res, "save", "png", data, want, name)
+
+
 def judge(cases_by_id, obs_paths, res, ran=None):
     """Reads observation records and applies the oracle."""
     begun, ended = set(), set()
@@ -885,7 +1215,7 @@ def judge(cases_by_id, obs_paths, res, ran=None):
                 res.count("lsan-leak-checks")
                 if leaked:
                     a, b = cases_by_id[first_id], cases_by_id[cid]
-                    coarse = "saved-files" if b.kind == 1 else ("bmp-load" if b.group.startswith("bmp") else "ppm-load")
+                    coarse = "saved-files" if b.kind in (1, 2) else ("bmp-load" if b.group.startswith("bmp") else "ppm-load")
                     res.violation("leak:%s" % coarse, "LeakSanitizer found memory leaked while loading/saving the %d cases "
                                   "(all their prefixes) ending with this one; the lsan:leak:* report names the allocation" % n,
                                   "cases %d..%d: first=[%s] last=[%s]" % (first_id, cid, a.name, b.name))
@@ -893,6 +1223,9 @@ def judge(cases_by_id, obs_paths, res, ran=None):
             c = cases_by_id[cid]
             if t in (R_ROUTE, R_RSAVE, R_RLOAD):
                 judge_route(res, t, c, rd, routes, direct_saves)
+                continue
+            if t == R_LADDER:
+                judge_ladder(res, c, rd)
                 continue
             slot = rd.u(1)
             # family label for keys: input family, or the saved format
@@ -908,6 +1241,8 @@ def judge(cases_by_id, obs_paths, res, ran=None):
                 op = "load" if c.kind == 0 else "roundtrip"
                 if kind == "mem":
                     res.cls("%s:%s:%s:mem:%s" % (op, fam, cwtag, _wmod(c.want.w)))
+                    if c.kind == 0:
+                        note_file_size(res, "bmp-input" if fam.startswith("bmp") else "ppm-input", fam, len(c.file))
                 elif kind == "pipe" and fam in ("bmp24", "saved-bmp"):  # row padding is skipped differently on a pipe
                     res.cls("%s:%s:pipe:%s" % (op, fam, _wmod(c.want.w)))
                 else:
@@ -986,13 +1321,18 @@ def judge(cases_by_id, obs_paths, res, ran=None):
                         res.cls("save:%s:%s:refused" % (fmtn, cwtag))  # documented: 8-bit only
                     continue
                 res.cls("save:%s:%s:%s" % (fmtn, cwtag, _wmod(c.want.w)))
+                if fmtn == "png":
+                    note_png_size(res, data)
+                    note_file_size(res, "png-raster", "png-raster-" + cwtag, c.want.h * (1 + c.want.w * (4 if c.want.alpha else 3)))
+                else:
+                    note_file_size(res, "saved-" + fmtn, "saved-%s-%s" % (fmtn, cwtag), len(data))
                 judge_saved(res, "save", fmtn, data, c.want, c.name)
     if ran is not None:
         ran["begun"] = begun
         ran["ended"] = ended
 
 
-GROUP_ORDER = ["p6", "p7-rgb", "p7-rgba", "p5", "p7-gray", "p7-graya", "p5-ext", "p7-gray-ext", "p7-graya-ext",
+GROUP_ORDER = ["ladder", "p6", "p7-rgb", "p7-rgba", "p5", "p7-gray", "p7-graya", "p5-ext", "p7-gray-ext", "p7-graya-ext",
                "bmp24", "bmp32", "bmp32bf", "save"]
 
 
@@ -1001,6 +1341,10 @@ def stage(ctx, st):
     res = Result()
     t0 = time.time()
     exe = build.build_harness("c06", "asan")
+    try:
+        res.cls("oracle-selftest:png-decoder", selftest_png_decoder(seed))
+    except AssertionError as ex:
+        raise driver.Inconclusive("c06: the independent PNG decoder failed its self-test: %s" % ex)
     cases = generate(tier, seed)
     t_gen = time.time() - t0
     by_id = {c.id: c for c in cases}
@@ -1015,6 +1359,8 @@ def stage(ctx, st):
     plan = {}
     for g in groups:
         plan[g] = max(1, min(ncpu, round(work[g] * (2.0 * ncpu) / total)))
+    if "ladder" in groups:
+        plan["ladder"] = min(ncpu, len(groups["ladder"]))  # one steering search per variant, about a second each
     order = [g for g in GROUP_ORDER if g in groups] + [g for g in groups if g not in GROUP_ORDER]
     jobs = []
     for g in order:
@@ -1053,10 +1399,18 @@ def stage(ctx, st):
                        "Image(const char*), Image(const std::string&)); every file fully loaded through a pipe" % MAXPREFIX)
     for g in groups:
         res.count("cases:" + g, len(groups[g]))
+    png_hit = {}
+    for k in res.classes:
+        if k.startswith("png-idat-size:"):
+            _, b, rel = k.split(":")
+            png_hit.setdefault(int(b), []).append(rel)
+    png_sizes = {str(b): " ".join(sorted(png_hit.get(b, []))) or "not hit" for b in PNG_LADDER_TARGETS}
+    res.samples.append("PNG IDAT payload sizes hit (=, -1, +1): " + ", ".join("%s[%s]" % (b, ",".join(sorted(png_hit.get(b, []))) or "-")
+                                                                                for b in PNG_LADDER_TARGETS))
     return {"evaluations": res.evaluations, "classes": res.classes, "counters": res.counters,
             "violations": res.violations, "violation_counts": res.vcounts, "samples": res.samples,
             "ub_observations": res.ub,
-            "extra": {"images": len(cases), "gen_s": round(t_gen, 1), "run_s": round(t_run, 1),
+            "extra": {"images": len(cases), "png_idat_boundary_sizes_hit": png_sizes, "gen_s": round(t_gen, 1), "run_s": round(t_run, 1),
                       "judge_s": round(t_judge, 1), "executor_cpu_s": round(cpu_run, 1), "processes": sum(plan.values()), "variant": "asan"}}
 
 
